@@ -176,6 +176,8 @@ RetTags(r) ==
       own == r.has_value /\ (primalMax = NegInf \/ val > primalMax)        \* found by the solver itself
       P(t) == IF I.long_arcs THEN "C15 " \o t ELSE "C01 " \o t
   IN Tag(r.panicked, IF cut THEN "C05 panic" ELSE P("panic"))
+     \* a crash of a run that uses the dominance checker / the cache is also the business of C10 / C09 (their checks pair such runs with runs without)
+     \cup Tag(r.panicked /\ cfg.dom, "C10 panic") \cup Tag(r.panicked /\ cfg.cache /\ ~cfg.dom, "C09 panic")
      \cup (IF r.panicked THEN {} ELSE
         \* C02: value / solution / bounds / Completion agree
            Tag(r.has_value # r.sol.some, "C02 solution-iff-value")
